@@ -214,3 +214,9 @@ def check(cx):
                "drops later inserts", floor=1)
     cx.include(c02, {"C02.2"}, "C08.10", "shared with C02.2: the analysis pass classifies every record kind and gives every transaction it classifies an "
                "LSN chain, also when its BEGIN was cut off by a checkpoint; otherwise redo/undo stop with an error and open() fails", floor=4)
+
+    # ---- C08.11 / C08.12 (constructs shared with C09.4 and C09.1) ----------------------------------------------------------
+    cx.include(c09, {"C09.4"}, "C08.11", "shared with C09.4: what open() loads from the persisted aborted bitmap is what was marked (same bit "
+               "layout on both sides); otherwise every reopen turns some rolled-back transactions into committed ones", floor=4, skip=("drops-large-ids",))
+    cx.include(c09, {"C09.1"}, "C08.12", "shared with C09.1: a checkpoint writes page zero on every path before it cuts the log; the header carries the "
+               "aborted bitmap and the transaction counters, and the log records that could restore them are gone after the cut", floor=5)
